@@ -33,6 +33,13 @@ class Plain(object):
             yield tuple(('!conflict',) + tuple(sorted(x, key=repr)) if isinstance(x, frozenset) else x for x in r)
 
 
+def _md_marker(etl, ts, key, kw):
+    # the marker is ONE object, shared by the cells that hold it: identical in memory, equal-but-not-identical once a row has
+    # been through a chunk file
+    m = ''.join(['n/', 'a'])
+    return Plain(etl.mergeduplicates(etl.convert(ts[0], 'a', lambda v: m if v is None else v), key, missing=m, **kw))
+
+
 def _outs(view):
     """One full pass, in the encoding of Dispatch.enc_out."""
     outs = []
@@ -63,6 +70,9 @@ def _ops():
         'merge_reverse': (2, lambda ts, key, kw: Plain(etl.merge(ts[0], ts[1], key=key, reverse=True,
                                                                  **{k: v for k, v in kw.items() if k != 'presorted'}))),
         'mergeduplicates': (1, lambda ts, key, kw: Plain(etl.mergeduplicates(ts[0], key, **kw))),
+        # a missing marker that is an ordinary (not interned, not singleton) object: rows read back from chunk files carry
+        # copies of it
+        'mergeduplicates_marker': (1, lambda ts, key, kw: _md_marker(etl, ts, key, kw)),
         'duplicates': (1, lambda ts, key, kw: etl.duplicates(ts[0], key, **kw)),
         'unique': (1, lambda ts, key, kw: etl.unique(ts[0], key, **kw)),
         'distinct': (1, lambda ts, key, kw: etl.distinct(ts[0], key, **kw)),
@@ -279,6 +289,10 @@ class C11(Prop):
                 pulls1 = sum(s.data_pulls for s in srcs)
                 for s, t2 in zip(srcs, ts2):
                     s.rows = [list(r) for r in t2]
+                    if cache and all(len(t) > 1 for t in ts):
+                        # a cached view serves its own header, too: the edited source gets other field names
+                        # (only when every input had data rows: a sort of zero rows has nothing to cache)
+                        s.rows[0] = ['K', 'A', 'V']
                 p2 = obs_rows(v)
                 pulls2 = sum(s.data_pulls for s in srcs) - pulls1
                 if p1[0] != 'li':
